@@ -715,7 +715,9 @@ func (e *c01Env) run(fields []string) (obs []string) {
 	req.Id = 4242
 	req.RecursionDesired = true
 	req.Question = []dns.Question{{Name: c.qname, Qtype: c.qtype, Qclass: dns.ClassINET}}
-	pctx := &proxy.DNSContext{Proto: proxy.ProtoUDP, Req: req, Addr: netip.AddrPortFrom(c.cip, 34567)}
+	// TCP code path: over UDP dnsproxy truncates an upstream answer above 512
+	// bytes (no EDNS in the request) inside Resolve, before any filtering.
+	pctx := &proxy.DNSContext{Proto: proxy.ProtoTCP, Req: req, Addr: netip.AddrPortFrom(c.cip, 34567)}
 	e.ups.calls, e.ups.rcode, e.ups.answer = nil, c.urcode, c.uans
 	e.ql.lastParams = nil
 
